@@ -2,7 +2,7 @@
 from vf import core
 from . import remoteclient as rc
 
-FORMULAS = {'Gated', 'RegisterSigned', 'RegisterFresh', 'AcceptedOnlyIfValid', 'FlushedWithHandshake', 'SubscriptionsDirect', 'AnsweredOnlyIfWritten', 'CarriedNotWritten', 'CarriedGated', 'NoPanic'}
+FORMULAS = {'Gated', 'RegisterSigned', 'RegisterFresh', 'AcceptedOnlyIfValid', 'FlushedWithHandshake', 'SubscriptionsDirect', 'AnsweredOnlyIfWritten', 'CarriedNotWritten', 'CarriedGated', 'NoDataBeforeAccept', 'NoPanic'}
 
 
 def main(argv):
